@@ -77,7 +77,10 @@ def gen_psum(rng, nest, outer, stats):
     if nest < 3 and rng.random() < (0.45 if nest == 1 else 0.3):
         inner, _ = gen_psum(rng, nest + 1, list(dict.fromkeys(outer + idxs)), stats)
         nested = True
-        body = ("add", [body, inner]) if rng.random() < 0.5 else ("mul", [gen_atom(rng, visible, 1), inner])
+        r = rng.random()
+        # the summand IS a pool sum (directly nested), or the nested sum sits in a sum / product
+        body = inner if r < 0.3 else ("add", [body, inner]) if r < 0.65 else ("mul", [gen_atom(rng, visible, 1), inner])
+        stats["directly_nested"] = stats.get("directly_nested", 0) + int(r < 0.3)
     stats["n_idx"][n_idx] = stats["n_idx"].get(n_idx, 0) + 1
     stats["singleton_pools"] += sum(1 for _, p in binders if len(p) == 1)
     stats["duplicate_value_pools"] += sum(1 for _, p in binders if len(set(p)) < len(p))
@@ -199,6 +202,16 @@ def shape_terms():
     add("index symbol of a nested sum also free outside of it", PoolSum(j * PoolSum(f(x, j), (j, (1, 2))) + i, (i, (0, 1))))
     add("depth 3, nested index free in the middle level",
         PoolSum(PoolSum(k * PoolSum(f(k, i), (k, (1, 2))) + j, (j, (1, 1))) * i, (i, (2, 3)), (k, (5,))))
+    # the summand IS a pool sum (directly nested): same index, disjoint, partially overlapping index sets, depth 2 and 3
+    add("directly nested, same index symbol", PoolSum(PoolSum(f(x, i), (i, (0, 1, 2))), (i, (half, 3, 5))))
+    add("directly nested, disjoint indices", PoolSum(PoolSum(f(i, j) * x, (j, (0, 1))), (i, (half, 3))))
+    add("directly nested, partially overlapping index sets",
+        PoolSum(PoolSum(f(i, j, k) + y, (j, (1, 2)), (k, (3,))), (i, (0, 1)), (j, (5, 6, 7))))
+    add("directly nested at depth 3, innermost re-binds the outermost index",
+        PoolSum(PoolSum(PoolSum(f(i, j) + x, (i, (1, 2))), (j, (3, 4))), (i, (5, 6, 7))))
+    add("directly nested at depth 3, same index on all levels",
+        PoolSum(PoolSum(PoolSum(g(i) * i, (i, (1, 2))), (i, (3,))), (i, (half, half))))
+    add("directly nested, inner sum has the singleton", PoolSum(PoolSum(f(i, j), (i, (2,))), (i, (1, 3)), (j, (0, 1))))
     add("pool of two equal values", PoolSum(f(i) * x + i, (i, (2, 2))))
     add("pool of three equal rationals", PoolSum(f(i, y), (i, (half, half, half))))
     add("mixed duplicates", PoolSum(f(i) * i, (i, (1, 2, 2)), (j, (0, 0))))
